@@ -281,7 +281,11 @@ pub fn def_strategy(cfg: GenCfg) -> BoxedStrategy<DefSpec> {
     let pat = {
         let cfg = cfg.clone();
         prop_oneof![
-            2 => keyword(&cfg).prop_map(|k| PatSpec::token(LitSpec::str(k))),
+            2 => (keyword(&cfg), prop::bool::weighted(0.15)).prop_map(|(k, ic)| {
+                let mut p = PatSpec::token(LitSpec::str(k));
+                p.ignore_case = ic;
+                p
+            }),
             5 => (pattern_ast(&cfg), prop::bool::weighted(0.08)).prop_map(|(a, ic)| {
                 let mut p = PatSpec::regex(LitSpec::str(a.text()));
                 p.allow_greedy = a.has_greedy_dot();
